@@ -30,6 +30,7 @@ type absEntry struct {
 	Spec    *specs.Spec // entValid
 	Invalid string      // entInvalid: syntax | nodevices | dupnames | empty | dangling | linktodir | badkind
 	SubFile bool        // entSub: put a valid-looking Spec file inside the sub-directory
+	ViaLink bool        // entValid: the name is a symbolic link to the Spec file (which lives outside the configured directories)
 }
 
 const (
@@ -44,6 +45,7 @@ type absDir struct {
 	State   int
 	Entries []absEntry // dirDir
 	File    *absEntry  // dirIsFile
+	ViaLink bool       // dirDir: the configured path is a symbolic link to the directory
 }
 
 type absFS struct{ Dirs []*absDir }
@@ -98,6 +100,9 @@ func (fs *absFS) desc() interface{} {
 	var out []interface{}
 	for _, d := range fs.Dirs {
 		m := map[string]interface{}{"path": d.Path, "state": []string{"missing", "unscannable", "is-file", "dir"}[d.State]}
+		if d.ViaLink {
+			m["symbolic_link_to_directory"] = true
+		}
 		var ents []interface{}
 		list := d.Entries
 		if d.State == dirIsFile {
@@ -125,7 +130,15 @@ func writeEntry(path string, e *absEntry) {
 	_ = os.RemoveAll(path)
 	switch e.Kind {
 	case entValid:
-		writeSpecFile(path, e.Spec)
+		if e.ViaLink {
+			store := filepath.Join(filepath.Dir(filepath.Dir(path)), "linked-specs")
+			_ = os.MkdirAll(store, 0o755)
+			tgt := filepath.Join(store, strings.ReplaceAll(strings.TrimPrefix(path, "/"), "/", "_")+filepath.Ext(path))
+			writeSpecFile(tgt, e.Spec)
+			_ = os.Symlink(tgt, path)
+		} else {
+			writeSpecFile(path, e.Spec)
+		}
 	case entSub:
 		_ = os.MkdirAll(path, 0o755)
 		if e.SubFile {
@@ -177,7 +190,15 @@ func (d *absDir) materialise() {
 		_ = os.MkdirAll(filepath.Dir(d.Path), 0o755)
 		writeEntry(d.Path, d.File)
 	default:
-		_ = os.MkdirAll(d.Path, 0o755)
+		if d.ViaLink {
+			real := d.Path + ".real"
+			_ = os.RemoveAll(real)
+			_ = os.MkdirAll(real, 0o755)
+			_ = os.MkdirAll(filepath.Dir(d.Path), 0o755)
+			_ = os.Symlink(real, d.Path)
+		} else {
+			_ = os.MkdirAll(d.Path, 0o755)
+		}
 		for i := range d.Entries {
 			writeEntry(filepath.Join(d.Path, d.Entries[i].Name), &d.Entries[i])
 		}
@@ -313,6 +334,7 @@ func genEntry(r *hx.R, dirTag string, used map[string]bool, rich bool, faults bo
 	switch kind {
 	case entValid:
 		e.Spec = genValidSpec(r, dirTag+"/"+name, rich)
+		e.ViaLink = r.Chance(0.1)
 	case entInvalid:
 		e.Invalid = hx.Pick(r, invalidKinds)
 		isSpecName := filepath.Ext(name) == ".json" || filepath.Ext(name) == ".yaml"
@@ -384,6 +406,7 @@ func genFS(r *hx.R, root string, rich, faults, dirFaults bool) *absFS {
 			d.File = e
 		default:
 			d.Entries = genDirEntries(r, fmt.Sprintf("d%d", i), rich, faults)
+			d.ViaLink = r.Chance(0.12)
 		}
 		fs.Dirs = append(fs.Dirs, d)
 	}
@@ -458,7 +481,9 @@ func (fs *absFS) mutate(r *hx.R, rich, faults bool) string {
 		fallthrough
 	default: // rmdir
 		_ = os.RemoveAll(d.Path)
+		_ = os.RemoveAll(d.Path + ".real")
 		d.State = dirMissing
+		d.ViaLink = false
 		d.Entries = nil
 		return "rmdir " + tag
 	}
